@@ -227,6 +227,34 @@ pub fn streams(tier: &str) -> Vec<StreamGen> {
         };
                 v.push(stream_gen("v9-two-templates-per-flowset", 2 * 3 * 3 * 4 * 4 * 3, move |i| Some(mk(i))));
     }
+    // 5a. a template flowset that defines an id twice (the later record wins) among other ids, then data for all
+    {
+        let mk = move |i: u64| -> Vec<Vec<u8>> {
+            let d = digits(i, &[3, 2, 3]);
+            let a = V9Tpl { id: 256, fields: vec![fs(8, 4), fs(7, 2)] };
+            let b = V9Tpl { id: 257, fields: vec![fs(27, 16)] };
+            let c = V9Tpl { id: 258, fields: vec![fs(1, 4), fs(5, 1)] };
+            let a2 = V9Tpl { id: 256, fields: vec![fs(2, 4), fs(4, 1), fs(5, 1)] };
+            let recs = match d[0] {
+                0 => vec![a.clone(), b.clone(), a2.clone()],
+                1 => vec![a.clone(), a2.clone(), b.clone(), c.clone()],
+                _ => vec![b.clone(), a.clone(), c.clone(), a2.clone(), a.clone()],
+            };
+            let last_a = if d[0] == 2 { &a } else { &a2 };
+            let t = V9Set::Tpl(recs, 0);
+            let data = vec![V9Set::Data(256, body_for(&last_a.fields, 2, d[1] as usize, None)), V9Set::Data(257, body_for(&b.fields, 1, 0, None))];
+            match d[2] {
+                0 => vec![v9_packet(&V9Pkt::new(std::iter::once(t).chain(data).collect()))],
+                1 => vec![v9_packet(&V9Pkt::new(vec![t])), v9_packet(&V9Pkt::new(data))],
+                _ => {
+                    let mut b1 = v9_packet(&V9Pkt::new(vec![t]));
+                    b1.extend(v9_packet(&V9Pkt::new(data)));
+                    vec![b1]
+                }
+            }
+        };
+        v.push(stream_gen("v9-template-flowset-repeating-an-id", 18, move |i| Some(mk(i))));
+    }
     // 5b. two options templates per flowset with data for both, every order and delivery
     {
         let mk = move |i: u64| -> Vec<Vec<u8>> {
